@@ -691,6 +691,9 @@ def run_c19(pid, tier, seed):
     rng = random.Random(seed + 7)
     n = 24 if tier == "quick" else 400
     cfgs = [factory.gen_config(rng, with_fleet=True) for _ in range(n)]
+    # lines with splitters / combiners and lines with conveyor edges are part of the reproducibility runs too
+    cfgs += [factory.gen_config_sc(rng) for _ in range(n // 3)] + [factory.gen_config_conv(rng) for _ in range(n // 3)]
+    n = len(cfgs)
     from harness import repro
     a, b = repro.digests(cfgs), repro.digests(cfgs, churn=1000)
     runs = {"in-process-1": a, "in-process-2": b}
@@ -698,7 +701,8 @@ def run_c19(pid, tier, seed):
     back = [repro.digests([c, c]) for c in cfgs]
     runs["back-to-back-1"] = [x[0] for x in back]
     runs["back-to-back-2"] = [x[1] for x in back]
-    more = [factory.gen_config(rng, with_fleet=True) if i % 3 else factory.gen_config_sc(rng) for i in range(200 if tier == "quick" else 3000)]
+    more = [(factory.gen_config(rng, with_fleet=True) if i % 3 else factory.gen_config_sc(rng)) if i % 5 else factory.gen_config_conv(rng)
+            for i in range(200 if tier == "quick" else 3000)]
     for c in more:
         d1, d2 = repro.digests([c, c])
         if d1 != d2:
